@@ -512,6 +512,8 @@ pub fn silent_logger() -> InfoLogger {
 /// Resets per-execution sources: RNG stream (N2).
 pub fn reseed(seed: u64) {
     rosomaxa::utils::verif_reseed(seed);
+    // the pragmatic reader creates non-repeatable random sources (e.g. for sampling job permutations): pin them too
+    rosomaxa::utils::verif_reseed_randomized(seed ^ 0x5eed);
 }
 
 /// An environment with controlled random, optional quota, fixed cpu count, no logging.
